@@ -37,6 +37,28 @@ def _nleaves(res):
         return 0
 
 
+def _trso_call(g, gd, q, doms):
+    """identify_target_outcomes with the per-domain dicts in different key orders and - on every third graph - with the
+    caller's own set object shared between the target arguments and an equal per-domain set."""
+    from y0.algorithm.transport import identify_target_outcomes
+    from y0.dsl import Variable
+
+    tx = {Variable(x) for x in q["X"]}
+    ty = {Variable(y) for y in q["Y"]}
+    so = {Variable(p): {Variable(w) for w in zw[1]} for p, zw in doms.items()}
+    si = {Variable(p): {Variable(z) for z in doms[p][0]} for p in reversed(list(doms))}
+    if sum(map(ord, gg.key(gd))) % 3 == 0:
+        for p_ in list(si):
+            if si[p_] == tx:
+                si[p_] = tx
+                kernel.count("C06:aliased-argument-sets")
+            if so[p_] == ty:
+                so[p_] = ty
+                kernel.count("C06:aliased-argument-sets")
+    return identify_target_outcomes(g, target_outcomes=ty, target_interventions=tx, surrogate_outcomes=so,
+                                    surrogate_interventions=si)
+
+
 def run_shard(ctx):
     gg.ALLOW_PREFIXED = False  # a name T_x is a selection node for the transport algorithms
     mon_id.install(semantic=False)
@@ -83,10 +105,7 @@ def run_shard(ctx):
         kernel.LOG.reset_case({"graph": gd, "X": q["X"], "Y": q["Y"], "domains": doms})
         res = None
         try:
-            res = identify_target_outcomes(
-                g, target_outcomes={Variable(y) for y in q["Y"]}, target_interventions={Variable(x) for x in q["X"]},
-                surrogate_outcomes={Variable(p): {Variable(w) for w in zw[1]} for p, zw in doms.items()},
-                surrogate_interventions={Variable(p): {Variable(z) for z in doms[p][0]} for p in reversed(list(doms))})
+            res = _trso_call(g, gd, q, doms)
         except Exception:  # noqa: BLE001
             pass
         ctx.case(f"trso|{gg.key(gd)}|{q['X']}|{q['Y']}|{sorted(doms.items())}", res is not None and _nleaves(res) >= 2,
@@ -116,10 +135,7 @@ def run_shard(ctx):
         kernel.LOG.reset_case({"graph": gd, "X": q["X"], "Y": q["Y"], "domains": doms})
         res = None
         try:
-            res = identify_target_outcomes(
-                g, target_outcomes={Variable(y) for y in q["Y"]}, target_interventions={Variable(x) for x in q["X"]},
-                surrogate_outcomes={Variable(p): {Variable(w) for w in zw[1]} for p, zw in doms.items()},
-                surrogate_interventions={Variable(p): {Variable(z) for z in doms[p][0]} for p in reversed(list(doms))})
+            res = _trso_call(g, gd, q, doms)
         except Exception:  # noqa: BLE001
             pass
         ctx.case(f"trso|{gg.key(gd)}|{q['X']}|{q['Y']}|{sorted(doms.items())}", res is not None and _nleaves(res) >= 2)
